@@ -550,9 +550,11 @@ EXPORT_BASES = {"export_qualifiers", "to_gff", "to_genbank"}
 
 def family(tok, what):
     """Purely syntactic grouping of a digest item, so that findings/C10.json can match narrowly:
-      seqtype-spelling  the only difference is str vs SequenceType of a sequence_type            (F-C10c)
-      qualifier-alias   a GFF3/GenBank/qualifier export changed qualifier sets of the object     (F-C10b)
-      cds-path          a CDS-sequence accessor answered with the wrong type / error             (F-C10a)
+      seqtype-spelling  the only difference is str vs SequenceType of a sequence_type     (open finding F-C10c)
+      qualifier-alias   a GFF3/GenBank/qualifier export changed qualifier sets of the object
+                        (shape of the repaired defect F-C10b — NOT matched by any finding any more)
+      cds-path          a CDS-sequence accessor answered with the wrong type / error
+                        (shape of the repaired defect F-C10a — NOT matched by any finding any more)
       other             anything else — never matched by a finding"""
     b = base_name(tok)
     if what in SPELL_WHATS:
